@@ -23,7 +23,7 @@ TIERS = {
     "quick": {"C05": dict(shards=16, positions=5, depth=3, validate=1, cap=30000, max_men=7, fixed=4, win_positions=400, win_depth=3,
                      bell_positions=25, bell_kpk=500, bell_depth=4, bell_special=1),
               "C06": dict(shards=16, positions=2, depth=3, validate=0, cap=6000, max_men=6, kstep=1)},
-    "thorough": {"C05": dict(shards=16, positions=150, depth=3, validate=6, cap=60000, max_men=8, fixed=5, win_positions=4000, win_depth=4, bell_positions=400, bell_kpk=6000, bell_depth=5, bell_special=8,
+    "thorough": {"C05": dict(shards=16, positions=150, depth=3, validate=6, cap=60000, max_men=8, fixed=5, win_positions=4000, win_depth=4, bell_positions=400, bell_kpk=6000, bell_depth=4, bell_special=8,
                          steps=dict(cases=96, depth=3, heur_ops=20000)),
                  "C06": dict(shards=16, positions=40, depth=3, validate=0, cap=12000, max_men=7, kstep=1, aeq_positions=250, aeq_samples=200,
                              steps=dict(cases=96, depth=3, two=True))},
